@@ -41,10 +41,19 @@ def run_harness(R, h, kind, n, seed, ms, ops_files=(), tag=""):
     env = vlib.goenv()
     env.update(VERIF_SEED=str(seed), VERIF_N=str(n), VERIF_OUT=trace, VERIF_KIND=kind,
                VERIF_MS=",".join(str(m) for m in ms), VERIF_OPS=":".join(ops_files))
-    rc, out = vlib.sh([h, "-test.run", "TestTrace", "-test.count=1"], env=env, timeout=1500)
+    # the only time limit is the outer one, and running into it is a note (slow machine), never a verdict
+    rc, out = vlib.sh([h, "-test.run", "TestTrace", "-test.count=1", "-test.timeout=0"], env=env, timeout=1500 + n)
     if rc != 0:
         return None, out
     return trace, out
+
+
+def harness_abort(R, out, sig, what):
+    """the harness did not end normally: a crash is a finding, the outer time limit only a note"""
+    if "[timeout after" in out[-200:]:
+        R.notes.append("harness/tables did not finish within its time limit (slow machine); nothing was evaluated in this run")
+    else:
+        R.oracle_failure(sig, what, dict(output=out[-2000:]))
 
 
 def run_runner(exe, trace, timeout=1500):
